@@ -3,6 +3,7 @@
 //! `--cfg googlefonts_fontations_verif`.
 //!
 //! @assume interpreter state is built directly on the stack (no HintingInstance / Vec): value stack of 8 slots with k<=6 symbolic pre-pushed values, cvt 4 + storage 4 symbolic, 2 function + 2 instruction definitions (function 0 active with a symbolic code range), glyph zone and twilight zone of 4 points each with symbolic unscaled/original/current coordinates and flags, one contour [3]
+//! @assume loop budget counters are <= limit (a counter beyond the limit has already returned ExceededExecutionBudget)
 //! @assume graphics state is the default one except: scale, ppem, is_pedantic, backward_compatibility, zp0-2, rp0-2, loop_counter (<= 0xFFFF) are symbolic (each is settable to that value by one real instruction)
 //! @bound one decode()+dispatch() of a 6-byte program whose first byte is the (concrete) opcode and whose remaining bytes are symbolic
 #![allow(unused, clippy::all)]
@@ -99,6 +100,10 @@ macro_rules! with_engine {
         }
         let budget_limit: usize = kani::any();
         kani::assume(budget_limit <= 100_000);
+        // reachable budget states: a counter that exceeded the limit has already stopped the program
+        let budget_bj: usize = kani::any();
+        let budget_lc: usize = kani::any();
+        kani::assume(budget_bj <= budget_limit && budget_lc <= budget_limit);
         let mut $e = Engine {
             graphics,
             cvt: CowSlice::new_mut(&mut cvt_buf).into(),
@@ -107,8 +112,8 @@ macro_rules! with_engine {
             program: ProgramState::new(&font_code, &[], code, $program),
             loop_budget: LoopBudget {
                 limit: budget_limit,
-                backward_jumps: kani::any(),
-                loop_calls: kani::any(),
+                backward_jumps: budget_bj,
+                loop_calls: budget_lc,
             },
             definitions: DefinitionState::new(DefinitionMap::Mut(&mut fdefs), DefinitionMap::Mut(&mut idefs)),
             axis_count: 0,
